@@ -74,9 +74,14 @@ def one_trace(seed, steps):
                 continue
             args = dict(d=rng.choice(names), n=rng.choice(free_names))
         elif act == "set_dims":
-            if len(free_names) < len(names):
+            if rng.random() < 0.4 and len(names) >= 2:
+                perm = names[:]
+                rng.shuffle(perm)
+                args = dict(names=perm)              # a permutation of the current names (swap / shift)
+            elif len(free_names) < len(names):
                 continue
-            args = dict(names=rng.sample(free_names, len(names)))
+            else:
+                args = dict(names=rng.sample(free_names, len(names)))
         elif act in ("set_axis", "replace_axis"):
             d = rng.choice(names)
             args = dict(d=d, labs=_rand_labs(rng, ds.axes[d].size))
